@@ -169,6 +169,10 @@ func eval(c Case, dir string) hx.Result {
 			return &s
 		}
 		injections := 0
+		// the caller builds every request of the history in one buffer of its own (what a runtime that
+		// reuses a scratch slice does): what an earlier call was given is overwritten by the next request
+		reqBuf := make([]string, 4)
+		request := func(names ...string) []string { return reqBuf[:copy(reqBuf, names)] }
 		for step, op := range c.History {
 			initial := func() *oci.Spec {
 				// the OCI spec already lists devices at the paths the templates use, with other types and
@@ -186,20 +190,20 @@ func eval(c Case, dir string) hx.Result {
 			check := false
 			switch op {
 			case "inject":
-				_, applyErr = cache.InjectDevices(got, q)
+				_, applyErr = cache.InjectDevices(got, request(q)...)
 				r := rawCopy()
 				wantEdits = r.ContainerEdits
 				appendEdits(&wantEdits, r.Devices[0].ContainerEdits)
 				check = true
 			case "inject-both":
-				_, applyErr = cache.InjectDevices(got, q, "vendor.com/class=other")
+				_, applyErr = cache.InjectDevices(got, request(q, "vendor.com/class=other")...)
 				r := rawCopy()
 				wantEdits = r.ContainerEdits
 				appendEdits(&wantEdits, r.Devices[0].ContainerEdits)
 				appendEdits(&wantEdits, r.Devices[1].ContainerEdits)
 				check = true
 			case "inject-other":
-				_, applyErr = cache.InjectDevices(got, "vendor.com/class=other")
+				_, applyErr = cache.InjectDevices(got, request("vendor.com/class=other")...)
 				r := rawCopy()
 				wantEdits = r.ContainerEdits
 				appendEdits(&wantEdits, r.Devices[1].ContainerEdits)
@@ -212,14 +216,14 @@ func eval(c Case, dir string) hx.Result {
 				for rep := 0; rep < 6; rep++ {
 					r := rawCopy()
 					var w specs.ContainerEdits
-					req := []string{q, "second.org/class=dev2"}
+					req := request(q, "second.org/class=dev2")
 					if rep%2 == 0 {
 						w = r.ContainerEdits
 						appendEdits(&w, r.Devices[0].ContainerEdits)
 						appendEdits(&w, sec.ContainerEdits)
 						appendEdits(&w, sec.Devices[0].ContainerEdits)
 					} else {
-						req = []string{"second.org/class=dev2", q}
+						req = request("second.org/class=dev2", q)
 						w = sec.ContainerEdits
 						appendEdits(&w, sec.Devices[0].ContainerEdits)
 						appendEdits(&w, r.ContainerEdits)
@@ -242,7 +246,7 @@ func eval(c Case, dir string) hx.Result {
 				// a request that fails (one name does not resolve) must leave nothing behind: neither in
 				// the OCI spec passed in nor in the cache (later injections of the history are judged as always)
 				g := initial()
-				req := []string{q, "vendor.com/class=no-such-device", "second.org/class=dev2", "second.org/class=no-such-either"}
+				req := request(q, "vendor.com/class=no-such-device", "second.org/class=dev2", "second.org/class=no-such-either")
 				sent := append([]string{}, req...)
 				unres, ferr := cache.InjectDevices(g, req...)
 				if !reflect.DeepEqual(req, sent) {
